@@ -259,6 +259,64 @@ def make_unary(vals):
     return body
 
 
+SEQ_VALUES = [[1, 2], {'k': 1}, {1, 2}, [[1], [2]], 'ab', 7, (1, 2)]
+SEQ_STEPS = ['repr', 'str', 'mutate', 'len', 'add-one', 'index0', 'proxying-switched-off', 'equal-copy']
+
+
+def _seq_step(step, x, fresh):
+    if step == 'repr':
+        return (repr(x), '%r' % (x,), f'{x!r}')
+    if step == 'str':
+        return str(x)
+    if step == 'mutate':
+        if isinstance(x, list):
+            x.append(5)
+        elif isinstance(x, dict):
+            x['zz'] = 1
+        elif isinstance(x, set):
+            x.add(99)
+        return None
+    if step == 'len':
+        return len(x)
+    if step == 'add-one':
+        return x + (x if not isinstance(x, (int, dict, set)) else 1)
+    if step == 'index0':
+        return x[0]
+    if step == 'equal-copy':
+        return x == fresh
+    return None
+
+
+def body_sequences(ctx):
+    """Several operations in a row on one result (it may be looked at, changed through itself, looked at again), and
+    the sandbox's proxying may be switched off after the result was fetched: every step answers like the real value."""
+    import copy
+    v0 = SEQ_VALUES[ctx.choose(len(SEQ_VALUES), 'value')]
+    steps = [SEQ_STEPS[ctx.choose(len(SEQ_STEPS), 'step%d' % k)] for k in range(3)]
+    real, wrapped, fresh = copy.deepcopy(v0), P(copy.deepcopy(v0)), copy.deepcopy(v0)
+    case = {'value': repr(v0), 'steps': steps}
+    ctx.observe(repr(case))
+    ctx.set_sample(case)
+    ctx.mark_nontrivial(repr(case))
+    saved = sb.result_proxy_class
+    try:
+        for k, st in enumerate(steps):
+            if st == 'proxying-switched-off':
+                sb.result_proxy_class = None
+                continue
+            eok, exp, _ = _apply(lambda x: _seq_step(st, x, fresh), real)
+            ctx.step((st,))
+            gok, got, buf = _apply(lambda x: _seq_step(st, x, fresh), wrapped)
+            if eok != gok or (eok and not same(exp, got)) or (not eok and type(exp) is not type(got)):
+                ctx.fail({'symptom': 'a later operation on the same result answers differently from the real value',
+                          'step': st, 'after': ','.join(steps[:k]) or '-', 'value_class': type(v0).__name__}, case=case,
+                         real=repr(exp)[:80], proxy=repr(got)[:80])
+                break
+    finally:
+        sb.result_proxy_class = saved
+    ctx.outcome('sequence')
+
+
 def bounds(tier):
     v = QUICK_VALS if tier == 'quick' else THOROUGH_VALS
     return {'binary_ops': len(BIN), 'unary_ops': len(UN), 'value_classes': len(v),
@@ -268,4 +326,6 @@ def bounds(tier):
 def phases(tier):
     v = QUICK_VALS if tier == 'quick' else THOROUGH_VALS
     return [Phase('binary', make_binary(v), setup=_setup, chunk=500, describe='binary op x value x value x placement'),
-            Phase('unary', make_unary(VALS if tier == 'quick' else THOROUGH_VALS), setup=_setup, chunk=200, describe='unary/builtin op x value')]
+            Phase('unary', make_unary(VALS if tier == 'quick' else THOROUGH_VALS), setup=_setup, chunk=200, describe='unary/builtin op x value'),
+            Phase('sequences', body_sequences, setup=_setup, chunk=200,
+                  describe='3 operations in a row on one result (look, change through itself, look again, proxying switched off meanwhile)')]
